@@ -118,10 +118,11 @@ fn key_and_cert(seed: u8, cert_name: &str) -> (rustls_pki_types::PrivatePkcs8Key
     let cert = rcgen::CertificateParams::new(vec![cert_name.to_owned()]).unwrap().self_signed(&kp).unwrap().der().to_owned();
     (p8, cert, public)
 }
-fn identity(cert: CertificateDer<'static>, signer_seed: u8) -> Arc<Fixed> {
+fn identity(cert: CertificateDer<'static>, signer_seed: u8) -> Arc<Fixed> { identity_chain(vec![cert], signer_seed) }
+fn identity_chain(chain: Vec<CertificateDer<'static>>, signer_seed: u8) -> Arc<Fixed> {
     let (p8, _, _) = key_and_cert(signer_seed, "net-a");
     let signer = rustls::crypto::ring::sign::any_eddsa_type(&p8).unwrap();
-    Arc::new(Fixed(Arc::new(rustls::sign::CertifiedKey::new(vec![cert], signer))))
+    Arc::new(Fixed(Arc::new(rustls::sign::CertifiedKey::new(chain, signer))))
 }
 fn dialer_presenting(cert: CertificateDer<'static>, signer_seed: u8) -> quinn::Endpoint {
     let crypto = rustls::ClientConfig::builder_with_provider(Arc::new(rustls::crypto::ring::default_provider()))
@@ -134,11 +135,12 @@ fn dialer_presenting(cert: CertificateDer<'static>, signer_seed: u8) -> quinn::E
     ep
 }
 // a listener that is not anemo: shows `cert`, signs with `signer_seed`, asks for no client certificate and acknowledges every connection the way anemo does
-fn listener_presenting(cert: CertificateDer<'static>, signer_seed: u8) -> quinn::Endpoint {
+fn listener_presenting(cert: CertificateDer<'static>, signer_seed: u8) -> quinn::Endpoint { listener_presenting_chain(vec![cert], signer_seed) }
+fn listener_presenting_chain(chain: Vec<CertificateDer<'static>>, signer_seed: u8) -> quinn::Endpoint {
     let crypto = rustls::ServerConfig::builder_with_provider(Arc::new(rustls::crypto::ring::default_provider()))
         .with_protocol_versions(&[&rustls::version::TLS13]).unwrap()
         .with_no_client_auth()
-        .with_cert_resolver(identity(cert, signer_seed));
+        .with_cert_resolver(identity_chain(chain, signer_seed));
     let cfg = quinn::ServerConfig::with_crypto(Arc::new(quinn::crypto::rustls::QuicServerConfig::try_from(crypto).unwrap()));
     let ep = quinn::Endpoint::server(cfg, "127.0.0.1:0".parse().unwrap()).unwrap();
     let acc = ep.clone();
@@ -210,5 +212,20 @@ pub async fn stolen_certificate(_a: &Value) -> Value {
             outbound.push(json!({"who": who, "holds_the_private_key": signer == 211, "dial_names_the_identity": pinned, "connect_ok": ok, "listed": listed, "attributed_first_byte": as_id, "victim_first_byte": victim.0[0]}));
         }
     }
-    json!({"inbound": inbound, "outbound": outbound})
+    // (3) the holder of the key shows its certificate FOLLOWED by somebody else's: the identity reached is the holder's (the first certificate, whose key
+    // signed the handshake), for a dial that names it and for one that does not
+    let (_, other_cert, other_pub) = key_and_cert(214, "net-a");
+    let mut chains = Vec::new();
+    for pinned in [false, true] {
+        let srv = listener_presenting_chain(vec![victim_cert.clone(), other_cert.clone()], 211);
+        let addr = srv.local_addr().unwrap();
+        let res = if pinned { tokio::time::timeout(Duration::from_millis(4000), d.connect_with_peer_id(addr, victim)).await } else { tokio::time::timeout(Duration::from_millis(4000), d.connect(addr)).await };
+        let returned = match res { Ok(Ok(p)) => Some(p), _ => None };
+        let (lists_holder, lists_other) = (d.peers().contains(&victim), d.peers().contains(&anemo::PeerId(other_pub)));
+        let _ = d.disconnect(victim); let _ = d.disconnect(anemo::PeerId(other_pub));
+        srv.close(0u32.into(), b"");
+        for _ in 0..100 { if d.peers().is_empty() { break; } tokio::time::sleep(Duration::from_millis(10)).await; }
+        chains.push(json!({"dial_names_the_identity": pinned, "connect_ok": returned.is_some(), "returned_the_holder": returned == Some(victim), "returned_the_other": returned == Some(anemo::PeerId(other_pub)), "lists_holder": lists_holder, "lists_other": lists_other}));
+    }
+    json!({"inbound": inbound, "outbound": outbound, "two_certificate_chain": chains})
 }
